@@ -107,22 +107,6 @@ def c15_le_nan_bound(case, detail):
     return False
 
 
-def c15_native_sample_foreign_name(case, detail):
-    """C15: the accepted document holds, inside a histogram family, a native-histogram sample line that carries ANOTHER
-    name than that family (`if sample.name not in allowed_names and not is_nh`: a native sample is attached to the
-    histogram family in progress whatever its name).  Seen as interleaved families (the sample of one family inside
-    another one) and as late metadata (the metadata of the named family follows the line)."""
-    if not isinstance(case, dict) or 'accepted' not in str(detail):
-        return False
-    try:
-        from prometheus_client.openmetrics.parser import text_string_to_metric_families
-        fams = list(text_string_to_metric_families(case.get('doc', '')))
-    except Exception:
-        return False
-    return any(f.type == 'histogram' and s.native_histogram is not None and s.name != f.name
-               for f in fams for s in f.samples)
-
-
 # ---- C12 -------------------------------------------------------------------------------------------------
 def _c12_families(case):
     return case.get('fams', []) if isinstance(case, dict) else []
